@@ -49,7 +49,7 @@ func AlwaysReturnsError(p *core.Program, fn *types.Func) bool {
 	w := facts.NewWalker(fd.Pkg.TypesInfo)
 	w.OnStmt = func(s ast.Stmt, f facts.Formula) {
 		ret, isRet := s.(*ast.ReturnStmt)
-		if !isRet {
+		if !isRet || w.FuncLitDepth > 0 {
 			return
 		}
 		n++
@@ -61,11 +61,7 @@ func AlwaysReturnsError(p *core.Program, fn *types.Func) bool {
 			ok = false
 		}
 	}
-	// only top-level returns count: closures have their own results
 	w.WalkBody(fd.Decl.Body, nil)
-	if hasFuncLitReturn(fd.Decl.Body) {
-		ok = false
-	}
 	if n == 0 {
 		ok = false
 	}
@@ -105,7 +101,33 @@ func NonNilError(p *core.Program, w *facts.Walker, e ast.Expr, f facts.Formula) 
 	if call, ok := e.(*ast.CallExpr); ok {
 		return AlwaysReturnsError(p, core.Callee(w.Info, call))
 	}
-	return facts.Entails(f, facts.Not{X: facts.Atom("nil:" + w.Path(e))})
+	if facts.Entails(f, facts.Not{X: facts.Atom("nil:" + w.Path(e))}) {
+		return true
+	}
+	return false
+}
+
+// DefinedByErrorCtor: id is a local with a single definition `id := <call that always returns an error>`.
+func DefinedByErrorCtor(p *core.Program, fd *core.FuncDecl, id *ast.Ident) bool {
+	info := fd.Pkg.TypesInfo
+	o := info.ObjectOf(id)
+	n, ok := 0, false
+	ast.Inspect(fd.Decl.Body, func(nd ast.Node) bool {
+		if as, isAs := nd.(*ast.AssignStmt); isAs {
+			for i, l := range as.Lhs {
+				if lid, isID := l.(*ast.Ident); isID && info.ObjectOf(lid) == o {
+					n++
+					if len(as.Rhs) == len(as.Lhs) {
+						if c, isCall := ast.Unparen(as.Rhs[i]).(*ast.CallExpr); isCall && AlwaysReturnsError(p, core.Callee(info, c)) {
+							ok = true
+						}
+					}
+				}
+			}
+		}
+		return true
+	})
+	return n == 1 && ok
 }
 
 // IsErrorReturn reports whether ret certainly returns a non-nil error (last result).
@@ -133,7 +155,16 @@ func IsErrorReturn(p *core.Program, w *facts.Walker, fn *types.Func, ret *ast.Re
 		}
 		return false
 	}
-	return NonNilError(p, w, ret.Results[len(ret.Results)-1], f)
+	last := ret.Results[len(ret.Results)-1]
+	if NonNilError(p, w, last, f) {
+		return true
+	}
+	if id, ok := ast.Unparen(last).(*ast.Ident); ok {
+		if fd := p.ByObj[fn]; fd != nil && DefinedByErrorCtor(p, fd, id) {
+			return true
+		}
+	}
+	return false
 }
 
 // ---------------------------------------------------------------- dominance helpers
